@@ -76,7 +76,9 @@ theorem coapScheme_ne_nil {s : Bytes} (h : s ∈ coapSchemes) : s ≠ [] := by
 
 -- what set_request_uri needs to know about a netloc --------------------------------------
 
-structure NetlocFacts (ip : IpOracle) (n : Bytes) (uriHost : Option Bytes) : Prop where
+/-- `n` is an authority text that `set_request_uri` takes, `n'` the `hostinfo` of the remote it
+builds from it (`n` itself, unless `n` holds an IPv6 literal that is not written canonically) -/
+structure NetlocFactsTo (ip : IpOracle) (n n' : Bytes) (uriHost : Option Bytes) : Prop where
   clean : ∀ c ∈ n, isNetlocDelim c = false ∧ isUnsafeWs c = false
   brackets : bracketsOk ip n = true
   hostname : ∃ hn, hostnameOf n = some hn ∧
@@ -86,14 +88,18 @@ structure NetlocFacts (ip : IpOracle) (n : Bytes) (uriHost : Option Bytes) : Pro
   userinfo : hasUserinfo n = false
   literal : literalOk n = true
   port : ∃ p, portOf n = some p
-  undecided : undecidedHostinfo ip n = some n
+  undecided : undecidedHostinfo ip n = some n'
 
-theorem fromParsed_of_facts {ip : IpOracle} {s n : Bytes} {uriHost : Option Bytes}
-    {path query : List Bytes} (hs : s ∈ coapSchemes) (hn : NetlocFacts ip n uriHost)
+/-- the canonical authorities: the remote keeps the text as it is -/
+abbrev NetlocFacts (ip : IpOracle) (n : Bytes) (uriHost : Option Bytes) : Prop :=
+  NetlocFactsTo ip n n uriHost
+
+theorem fromParsed_of_facts {ip : IpOracle} {s n n' : Bytes} {uriHost : Option Bytes}
+    {path query : List Bytes} (hs : s ∈ coapSchemes) (hn : NetlocFactsTo ip n n' uriHost)
     (hp : SegsOk path) (hq : SegsOk query) :
     fromParsed ip { scheme := s, netloc := n, path := encodePath path, query := encodeQuery query,
                     fragment := [] }
-      = .ok { scheme := s, hostinfo := n, uriHost := uriHost, uriPort := none,
+      = .ok { scheme := s, hostinfo := n', uriHost := uriHost, uriPort := none,
               path := path, query := query } := by
   obtain ⟨hn', hhn, hlit⟩ := hn.hostname
   obtain ⟨p, hport⟩ := hn.port
@@ -108,11 +114,11 @@ theorem fromParsed_of_facts {ip : IpOracle} {s n : Bytes} {uriHost : Option Byte
     simp only [h2, h3]
 
 /-- composing from clean parts and parsing again -/
-theorem setRequestUri_render {ip : IpOracle} {s n : Bytes} {uriHost : Option Bytes}
-    {path query : List Bytes} (hs : s ∈ coapSchemes) (hn : NetlocFacts ip n uriHost)
+theorem setRequestUri_render {ip : IpOracle} {s n n' : Bytes} {uriHost : Option Bytes}
+    {path query : List Bytes} (hs : s ∈ coapSchemes) (hn : NetlocFactsTo ip n n' uriHost)
     (hp : SegsOk path) (hq : SegsOk query) :
     setRequestUri ip (render s n (encodePath path) (encodeQuery query))
-      = .ok { scheme := s, hostinfo := n, uriHost := uriHost, uriPort := none,
+      = .ok { scheme := s, hostinfo := n', uriHost := uriHost, uriPort := none,
               path := path, query := query } := by
   have hclean : CleanParts s n (encodePath path) (encodeQuery query) :=
     { scheme_head := (coapScheme_clean hs).1
